@@ -33,9 +33,11 @@ mod cindex;
 mod cidecho;
 mod wire;
 mod inject;
+mod txlog;
 
 pub use snapshot::{PathSnap, Snapshot, SpaceSnap, StreamsSnap};
 pub use inject::{FrameProbe, Inject, StreamProbe};
+pub use txlog::TxLog;
 
 pub(crate) fn hex(b: &[u8]) -> String {
     if b.is_empty() {
